@@ -8,8 +8,8 @@ CLI_PROPS = {"C13", "C14", "C15", "C16", "C17", "C18", "C19", "C20"}
 
 # which sources feed which property (order = order of execution)
 PLAN = {
-    "C01": ["exprparens", "trivia", "corpus"],
-    "C02": ["exprparens", "trivia", "corpus"],
+    "C01": ["exprparens", "trivia", "calls", "nest", "types", "corpus"],
+    "C02": ["exprparens", "trivia", "calls", "nest", "types", "corpus"],
     "C03": ["trivia", "corpus"],
     "C04": ["strings", "literals", "corpus"],
     "C05": ["exprparens"],
@@ -18,8 +18,8 @@ PLAN = {
     "C11": ["calls", "strings", "corpus"],
     "C12": ["sortrequires", "corpus"],
     "C10": ["layout", "trivia", "corpus"],
-    "C06": ["exprparens", "trivia", "calls", "corpus"],
-    "C07": ["exprparens", "trivia", "corpus"],
+    "C06": ["exprparens", "trivia", "calls", "nest", "types", "corpus"],
+    "C07": ["nest", "exprparens", "trivia", "calls", "corpus"],
 }
 
 LUAU_CTX = {"compound", "ifexp_then", "ifexp_else"}
@@ -176,6 +176,30 @@ def src_calls(tier, seed):
     return cases, st
 
 
+def src_nest(tier, seed):
+    raw, st = tlc_generate("MC_Nest", "MC_Nest_%s.cfg" % tier, "g_nest_" + tier)
+    raw.sort(key=lambda c: (c["meta"]["kind"], c["meta"]["depth"]))
+    cases = []
+    for i, c in enumerate(raw):
+        c["id"] = "ns:%s:%d" % (c["meta"]["kind"], c["meta"]["depth"])
+        c["sweep"] = {"column_width": [1, 20, 40, 80, 120, "max"]}
+        c["want"] = ["reformat"]
+        cases.append(c)
+    return cases, st
+
+
+def src_types(tier, seed):
+    raw, st = tlc_generate("MC_Types", "MC_Types_%s.cfg" % tier, "g_types_" + tier)
+    raw.sort(key=lambda c: c["src"])
+    cases = []
+    for i, c in enumerate(raw):
+        c["id"] = "ty%d" % i
+        c["sweep"] = {"column_width": [120, 24]}
+        c["want"] = ["reformat", "src"]
+        cases.append(c)
+    return cases, st
+
+
 def src_strings(tier, seed):
     cfgs = ["MC_Strings_quick.cfg", "MC_Strings_quick2.cfg"] if tier == "quick" else ["MC_Strings_thorough.cfg", "MC_Strings_thorough2.cfg"]
     raw, stats = [], {"module": "MC_Strings", "cfg": cfgs, "states": 0, "distinct": 0, "wall": 0}
@@ -216,6 +240,8 @@ def src_literals(tier, seed):
 
 
 SOURCES = {
+    "types": src_types,
+    "nest": src_nest,
     "calls": src_calls,
     "sortrequires": src_sortrequires,
     "block": src_block,
@@ -229,6 +255,7 @@ SOURCES = {
 }
 
 
+REPLAY_TIMEOUT = {"nest": 12}
 TRACE_SPEC = {"strings": "Trace_Strings", "literals": "Trace_Strings"}
 
 
